@@ -3,6 +3,8 @@ import json, sys
 pid = sys.argv[1]
 wt = sys.argv[2]
 variant = sys.argv[3] if len(sys.argv) > 3 else ""
+if variant == "@wave5":
+    variant = "NOTE: " + json.load(open('/verif/tools/wave5_notes.json'))[pid]
 if variant == "@wave4":
     variant = "NOTE: " + json.load(open('/verif/tools/wave4_notes.json'))[pid]
 if variant == "@wave3":
